@@ -240,3 +240,29 @@ Theorem C07_R_block_save_and_restore :
           /\ (forall k, 0 <= k <= 8 -> R m' k = ldw m (P + 28 + 4 * k))).
 Proof. split; [exact on_interrupt_effect_gen_R | exact retps_effect_R]. Qed.
 Print Assumptions C07_R_block_save_and_restore.
+
+(* ... and with R and I together (the handler runs with PCBP 12 bytes on; the empty block-move list is the one 64 bytes
+   behind the moved pointer) *)
+Theorem C07_interrupt_retps_transparent_RI_block :
+  forall ir v m,
+    iopcode ir = 12488 ->
+    bus_wf (mbus m) -> 0 <= v -> in_rom_w (140 + 4 * v) ->
+    let N := romw m (140 + 4 * v) in
+    let P := R m R_PCBP in
+    let S := R m R_ISP in
+    pcb_in_ram N -> in_ram_w (N + 76) -> ldw m (N + 76) = 0 ->
+    pcb_in_ram P -> in_ram_w (P + 64) -> ldw m (P + 64) = 0 ->
+    in_ram_w S -> S + 4 < 4294967296 ->
+    (P + 68 <= N \/ N + 80 <= P) -> (S + 4 <= P \/ P + 68 <= S) -> (S + 4 <= N \/ N + 80 <= S) ->
+    let H := ldw m N in
+    0 <= H -> Z.testbit H 8 = true -> Z.testbit H 7 = true -> Z.testbit H 11 = false -> Z.testbit H 12 = false ->
+    Z.testbit (PSW m) 7 = false ->
+    (forall i, 0 <= i <= 15 -> 0 <= R m i < 4294967296) ->
+    exists m1 m2,
+      on_interrupt v m = Ok tt m1 /\ R m1 R_PCBP = N + 12 /\ exec ir m1 = Ok 0 m2
+      /\ R m2 R_PC = R m R_PC /\ R m2 R_SP = R m R_SP /\ R m2 R_PCBP = P /\ R m2 R_ISP = S
+      /\ (forall i, 0 <= i <= 10 -> R m2 i = R m i)
+      /\ (forall k, In k [21; 20; 19; 18; 16; 15; 14; 13; 12; 11; 10; 9; 7] -> Z.testbit (PSW m2) k = Z.testbit (PSW m) k)
+      /\ (forall a, RAMB <= a -> (a < S \/ S + 4 <= a) -> (a < P \/ P + 64 <= a) -> ramb m2 a = ramb m a).
+Proof. exact interrupt_retps_transparent_RI. Qed.
+Print Assumptions C07_interrupt_retps_transparent_RI_block.
